@@ -87,7 +87,7 @@ def run_once(sc, schedule, seed=None, line_preempt=None, back=False):
         sock.cid = 0
         sock.write_caps = sc.get("write_caps")
         sock.read_cap = sc.get("read_cap")
-        sock.to = 5
+        sock.to = sc.get("sock_timeout", 5)
         sock.buf += bytes(sc.get("stream", b""))
         ws.sock = sock
         ws.connected = True
@@ -228,6 +228,8 @@ def scenarios(rng, tier):
     scs.append(dict(name="recv2_lines", receivers=2, stream=two, recv_calls=3, read_cap=None, senders=[], bound=0, max_runs=1,
                     line_level=3 if tier == "quick" else 1))
     scs.append(dict(name="send2_lines", senders=[b"\x01", b"\x02\x02"], write_caps=[3], bound=0, max_runs=1, line_level=1, back=True))
+    # a transport without timeout (blocking mode as far as gettimeout() tells) that offers sendall()
+    scs.append(dict(name="send2_notimeout", senders=[b"\x01" * 9, b"\x02\x02"], write_caps=[4], sock_timeout=None, bound=1, max_runs=80 if tier == "quick" else 800))
     # a str payload with characters beyond ASCII in a binary frame (one byte per character, as the library defines it)
     scs.append(dict(name="send2_str", senders=["caf\xe9", b"\x02\x02"], write_caps=[2], bound=1, max_runs=60 if tier == "quick" else 600))
     scs += ping_scenarios(tier)
